@@ -401,7 +401,7 @@ def run(ck: common.Check):
                "non-trivial = at least one node or one property; distinct = distinct canonical case JSON")
     cases = [c for c in R.corpus(PROP)]
     base = exhaustive(ck.quick) + special_cases()
-    nrand = 700 if ck.quick else 4000
+    nrand = 700 if ck.quick else 3000
     nmal = 150 if ck.quick else 600
     base += [random_case(ck.rng, ck.quick) for _ in range(nrand)]
     base += [malformed_case(ck.rng) for _ in range(nmal)]
@@ -409,16 +409,15 @@ def run(ck: common.Check):
     for i, c in enumerate(base):
         for fmt in (2, 3):
             cases.append({**c, "fmt": fmt, "store": "mem"})
-        # the other store kinds: quick = one kind x one format on every 10th graph; thorough = all three kinds x both
-        # formats on every 4th graph
+        # the other store kinds: quick = one kind x one format on every 10th graph; thorough = all three kinds (formats
+        # alternating) on every 4th graph
         if ck.quick:
             if i % 10 == 0:
                 j = (i // 10) % 3
                 cases.append({**c, "fmt": 2 + (i // 30) % 2, "store": kinds[j]})
         elif i % 4 == 0:
-            for kind in kinds:
-                for fmt in (2, 3):
-                    cases.append({**c, "fmt": fmt, "store": kind})
+            for j, kind in enumerate(kinds):
+                cases.append({**c, "fmt": 2 + (i // 4 + j) % 2, "store": kind})
     ck.extra["cases_by_store"] = {k: sum(1 for c in cases if c.get("store", "mem") == k) for k in ["mem", *kinds]}
 
     obs_all = common.pmap(impl_run, cases, chunksize=8)
